@@ -253,7 +253,22 @@ func (x *Exec) callFunction(st *State, fn *ssa.Function, bindings, args []Val, s
 				names = append(names, n)
 			}
 		}
-		x.applyContract(st, con, name, names, args, fn.Signature, cont, ins)
+		// closures under contract: free variables are visible by name (current value of the variable)
+		cargs := append([]Val{}, args...)
+		for i, fv := range fn.FreeVars {
+			if i < len(bindings) {
+				b := bindings[i]
+				if b.Loc != nil && b.Loc.Kind == LCell {
+					b = x.load(st, b.Loc)
+				}
+				for len(names) < len(cargs) {
+					names = append(names, fmt.Sprintf("arg%d", len(names)))
+				}
+				names = append(names, fv.Name())
+				cargs = append(cargs, b)
+			}
+		}
+		x.applyContract(st, con, name, names, cargs, fn.Signature, cont, ins)
 		return
 	}
 	if con == nil {
